@@ -131,3 +131,16 @@ fn pow_montgomery_form(
 
     z
 }
+
+/// Verification hook: forwards to the private [`pow_montgomery_form`].
+#[cfg(crypto_bigint_verif)]
+pub(crate) fn verif_boxed_pow_montgomery_form(
+    x: &BoxedUint,
+    exponent: &BoxedUint,
+    exponent_bits: u32,
+    modulus: &BoxedUint,
+    one: &BoxedUint,
+    mod_neg_inv: Limb,
+) -> BoxedUint {
+    pow_montgomery_form(x, exponent, exponent_bits, modulus, one, mod_neg_inv)
+}
